@@ -27,7 +27,7 @@ from ..report import Ctx
 from ..selftest import Mutant
 
 PROP = "C05"
-TECHNIQUE = "static analysis: who-may-open-for-write rule + ordering analysis of the atomic publishing primitive + existence-guard dominance for every load + role tracing of the existing/missing lists + effect summaries (FS_WRITE/FS_DELETE) with joint branch-condition evaluation + gate like-with-like ordering rule + path-sensitive three-valued (bool | None) truthiness analysis with flag tracking"
+TECHNIQUE = "static analysis: who-may-open-for-write rule + ordering analysis of the atomic publishing primitive + existence-guard dominance for every load + role tracing of the existing/missing lists + effect summaries (FS_WRITE/FS_DELETE) with joint branch-condition evaluation + gate like-with-like ordering rule + path-sensitive three-valued (bool | None) truthiness analysis with flag tracking + gate whole-value operands (no narrowing) + temp-file placement rule + loaded-arity rule"
 EXPLANATION = (
     "Static analysis: a who-may-open-for-write rule over the modules that touch a run folder, a shape/ordering analysis "
     "of the one publishing primitive (temporary sibling, close, single atomic replace), dominance of every load by an "
@@ -600,6 +600,7 @@ def check(ctx: Ctx) -> None:
 
 U, RIF, R, D, A = "pipefunc/_utils.py", "pipefunc/map/_run_info.py", "pipefunc/map/_run.py", "pipefunc/map/_storage_array/_dict.py", "pipefunc/map/adaptive.py"
 MUTANTS = [
+    Mutant("gate-compares-shared-keys-only", "pipefunc/map/_run_info.py", "    equal_inputs = equal_dicts(inputs, old.inputs, verbose=True)\n", "    shared = inputs.keys() & old.inputs.keys()\n    equal_inputs = equal_dicts({k: inputs[k] for k in shared}, {k: old.inputs[k] for k in shared}, verbose=True)\n", ("C05.6-gate",), why="round-4 seed C11/11"),
     Mutant("loaded-returned-bare-F40", R, "        return _StoredOutputs(tuple(output) if isinstance(func.output_name, tuple) else (output,))\n", "        return output\n", ("C05.7-loaded-marked",), why="original F40"),
     Mutant("gate-before-construct-F37", RIF, "        # The previous run info stores the constructed internal shapes, compare like with like\n        internal_shapes = _construct_internal_shapes(internal_shapes, pipeline)\n        if run_folder is not None:\n            if cleanup:\n                _cleanup_run_folder(run_folder)\n            else:\n                _compare_to_previous_run_info(pipeline, run_folder, inputs, internal_shapes)\n        _check_inputs(pipeline, inputs)\n",
            "        if run_folder is not None:\n            if cleanup:\n                _cleanup_run_folder(run_folder)\n            else:\n                _compare_to_previous_run_info(pipeline, run_folder, inputs, internal_shapes)\n        _check_inputs(pipeline, inputs)\n        internal_shapes = _construct_internal_shapes(internal_shapes, pipeline)\n", ("C05.6-gate",), why="original F37"),
